@@ -2,6 +2,7 @@ package sim
 
 import (
 	"fmt"
+	"strings"
 	"sync"
 	"time"
 )
@@ -22,31 +23,32 @@ func init() {
 	Register(&PropDef{
 		ID: "C20", Title: "independent conversations do not interfere (also concurrently)",
 		Config: c20Config, Run: c20Run, MaxSteps: 400, OwnsCrash: true, QuickS: 40,
-		Rule: "runs = 3..6 independent conversation pairs (own seeds; handshake, traffic with rotations, injected errors, SMP, fragmentation, End and restart) executed (mode 0) on one goroutine each with a PRNG-chosen interleaving of their API calls and clock ticks in between, or (mode 1) free-running in parallel under the race detector; oracle = transcript (every call, wire byte, event, state sample) of each pair equals the solo run of that pair with the same per-call clock readings; zero race reports; " +
+		Rule: "runs = 3..6 independent conversation pairs (own seeds; handshake, traffic with rotations, injected errors, SMP, fragmentation, End and restart) executed (mode 0) on one goroutine each with a PRNG-chosen interleaving of their API calls and clock ticks in between, or (mode 1) free-running in parallel under the race detector (the harness touches no shared counter, lock or channel while they run, so it adds no happens-before edge of its own), or (mode 2) 5..8 goroutines each driving a pair of bare Conversations through the same life cycle at the same moment (clear-text sends with whitespace tags under differing version policies, query, AKE, data, SMP, extra key, End) with only a hash of everything returned kept; oracle = transcript (every call, wire byte, event, state sample) of each pair equals the solo run of that pair with the same per-call clock readings; zero race reports; " +
 			"non-trivial = every pair made at least 20 API calls and at least 2 pairs were interleaved at call granularity; distinct = distinct (mode, schedule) signatures",
 		Assume: []string{"the shared simulated clock is an input common to all pairs, not interference: the solo reference replays the per-call clock readings",
 			"the race detector reports on the happens-before relation; with no synchronisation between the pairs that relation does not depend on timing"},
-		NondetReplay: func(rc *RunCtx) bool { return rc.Cfg["mode"] == 1 },
+		NondetReplay: func(rc *RunCtx) bool { return rc.Cfg["mode"] != 0 },
 	})
 }
 
 func c20Config(rc *RunCtx) {
 	r := rc.Rng
 	rc.Cfg["pairs"] = 3 + r.Intn(4)
-	rc.Cfg["mode"] = r.Intn(3) / 2 // one third parallel
+	rc.Cfg["mode"] = []int{0, 0, 1, 2}[r.Intn(4)] // half scheduled, a quarter free-running pairs, a quarter bare-conversation hammer
 	rc.Cfg["len"] = 30 + r.Intn(50)
 }
 
 type c20Pair struct {
-	idx   int
-	w     *World
-	rng   *PRNG
-	ask   [2]bool
-	n     int
-	limit int
-	times []time.Duration // clock offset before each step (recorded when interleaved, replayed when solo)
-	done  bool
-	held  []*CallResult // recent results whose returned slices are still referenced by the application
+	idx     int
+	w       *World
+	rng     *PRNG
+	ask     [2]bool
+	n       int
+	limit   int
+	times   []time.Duration // clock offset before each step (recorded when interleaved, replayed when solo)
+	done    bool
+	wsSends int           // clear-text sends that carried a whitespace tag
+	held    []*CallResult // recent results whose returned slices are still referenced by the application
 }
 
 // aliased reports a message the library handed out earlier whose bytes changed afterwards.
@@ -81,6 +83,9 @@ func newC20Pair(rc *RunCtx, idx int, limit int) *c20Pair {
 		}
 		if r.Kind == "smpanswer" || r.HasEvent("smp", "Abort") {
 			p.ask[pp.Idx] = false
+		}
+		if r.Kind == "send" && len(r.Out) > 0 && strings.Contains(string(r.Out[0]), " \t  \t\t\t\t \t \t \t  ") {
+			p.wsSends++
 		}
 		if len(r.OutRef) > 0 {
 			p.held = append(p.held, r)
@@ -177,6 +182,9 @@ func (p *c20Pair) step() bool {
 }
 
 func c20Run(rc *RunCtx) *Violation {
+	if rc.Cfg["mode"] == 2 {
+		return c20Hammer(rc)
+	}
 	k := rc.Cfg["pairs"]
 	limit := rc.Cfg["len"]
 	pairs := make([]*c20Pair, k)
@@ -190,6 +198,7 @@ func c20Run(rc *RunCtx) *Violation {
 		var wg sync.WaitGroup
 		start := make(chan struct{})
 		for _, p := range pairs {
+			p.w.NoBeat = true
 			wg.Add(1)
 			go func(p *c20Pair) {
 				defer wg.Done()
@@ -309,6 +318,15 @@ func c20Run(rc *RunCtx) *Violation {
 	rc.Stats.Sig = fmt.Sprintf("m%d k%d %s", rc.Cfg["mode"], k, runOrder(rc.Steps))
 	rc.ProbeN("pair_switches", switches)
 	rc.ProbeN("pairs", k)
+	nws := 0
+	for _, p := range pairs {
+		if p.wsSends > 0 {
+			nws++
+		}
+	}
+	if nws >= 2 {
+		rc.Probe(fmt.Sprintf("two_pairs_sent_whitespace_tags_mode%d", rc.Cfg["mode"]))
+	}
 	return nil
 }
 
